@@ -16,6 +16,8 @@ CONSTANTS
   TsTypes = {}
   JsonAttr = FALSE
   Emit = FALSE
+  OptIsDynamic = FALSE
+  OptSkipDynamic = FALSE
   Edits = FALSE
   KindS = "all"
   EmitSched = FALSE
